@@ -127,6 +127,9 @@ any_ptr! { 'gc;
     NodeE => Gc<'gc, ()>, GcWeak<'gc, ()>,
     NodeD => Gc<'gc, dyn DynNode<'gc> + 'gc>, GcWeak<'gc, dyn DynNode<'gc> + 'gc>,
     Bag => Gc<'gc, RefLock<BagBody<'gc>>>, GcWeak<'gc, RefLock<BagBody<'gc>>>,
+    ZLeaf => Gc<'gc, crate::tok::ZTok>, GcWeak<'gc, crate::tok::ZTok>,
+    SwhPod => Gc<'gc, SliceWithHeader<SwhHead<'gc>, u8>, KFat<HP>>, GcWeak<'gc, SliceWithHeader<SwhHead<'gc>, u8>, KFat<HP>>,
+    CellP => Gc<'gc, Lock<PackedBody<'gc>>>, GcWeak<'gc, Lock<PackedBody<'gc>>>,
     // immutable objects made through the copy path: their elements ARE pointers
     CopySlice => Gc<'gc, [Edge<'gc>], KFat<SP>>, GcWeak<'gc, [Edge<'gc>], KFat<SP>>,
     CopySwh => Gc<'gc, SliceWithHeader<CopyHead<'gc>, Edge<'gc>>, KFat<HP>>, GcWeak<'gc, SliceWithHeader<CopyHead<'gc>, Edge<'gc>>, KFat<HP>>,
@@ -153,6 +156,26 @@ pub struct SwhHead<'gc> {
     pub tok: Tok,
     pub fp: FaultPoint,
     pub slot: Lock<Option<AnyGc<'gc>>>,
+}
+
+/// A `repr(packed)` payload: alignment 1, yet it holds pointers (the classic tag-plus-pointer value).
+#[derive(Clone, Copy)]
+#[repr(C, packed)]
+pub struct PackedBody<'gc> {
+    pub tag: u8,
+    pub id: Id,
+    pub e: Option<AnyGc<'gc>>,
+    pub w: Option<AnyWeak<'gc>>,
+}
+unsafe impl<'gc> Collect<'gc> for PackedBody<'gc> {
+    const NEEDS_TRACE: bool = true;
+    fn trace<T: Trace<'gc>>(&self, cc: &mut T) {
+        // packed fields are read by copy, never borrowed
+        let e = self.e;
+        let w = self.w;
+        cc.trace(&e);
+        cc.trace(&w);
+    }
 }
 
 /// Header of the copy-path slice-with-header kind: it holds an edge of its own.
